@@ -27,7 +27,11 @@ ALL_DEVIATIONS = ["NoLenUntilClose", "ClPlus", "TeLenient", "LenientName",
                   # method dimension: a HEAD *request* exempted from the content-length vs DATA reconciliation (a defect
                   # class, never the code's behaviour); an HTTP/2 CONNECT with :scheme/:path forwarded as an ordinary
                   # request (the code's behaviour before fix: commit 2577ced)
-                  "HeadRequestExempt", "H2ConnectOrdinary"]
+                  "HeadRequestExempt", "H2ConnectOrdinary",
+                  # the response complete before the request (a backend answering from the request head): the frontend
+                  # connection kept alive with part of the body unread / the backend connection pooled with the request not
+                  # written completely (the code before fix: commits 54f6c21, f073bfa)
+                  "ReuseFrontUnread", "ReuseBackUnwritten"]
 
 CFG = """SPECIFICATION Spec
 CONSTANTS
